@@ -1,10 +1,5 @@
 INIT OInit
 NEXT ONext
-CONSTANTS
-  ColRule = "bus_minus_norefs"
-  ShiftRule = "all_trafos"
-  Ls2gInstalled = TRUE
-  NumbaInstalled = TRUE
 INVARIANT C06_Same_nr_pp
 INVARIANT C06_Same_nr_ls2g
 INVARIANT C06_Same_nr_nonumba
